@@ -18,20 +18,22 @@ import (
 
 // Plan is one (universe, alphabet, bound) instance of the Shuttermint model.
 type Plan struct {
-	Name     string
-	Const    string   // SMConst_<Const>.tla
-	Kinds    []string // alphabet classes
-	Depth    int      // BFS bound (ops)
-	Product  string   // "" single app + StepProps | "replicas" | "ni"
-	SimNum   int      // additional random walks
-	SimDepth int
-	Twins    string // "" | "c10" | "c13": derive twin runs from the generated behaviours
-	Skew     bool   // replicas persist at different heights (wall-clock independence, C09)
-	Mempool  bool   // every second replica runs CheckTx before DeliverTx (mempool independence, C09)
-	Restart  bool   // the last replica is restarted from its state file after every Commit (C09)
-	NoSave   bool   // C13 twins without the periodic save (only files the app writes by itself)
-	Tags     bool   // remember refused-op classes in the VIEW (small universes only)
-	MaxBeh   int    // cap on replayed behaviours (0 = all)
+	Name       string
+	Const      string   // SMConst_<Const>.tla
+	Kinds      []string // alphabet classes
+	Depth      int      // BFS bound (ops)
+	Product    string   // "" single app + StepProps | "replicas" | "ni"
+	SimNum     int      // additional random walks
+	SimDepth   int
+	Twins      string // "" | "c10" | "c13": derive twin runs from the generated behaviours
+	Skew       bool   // replicas persist at different heights (wall-clock independence, C09)
+	Mempool    bool   // every second replica runs CheckTx before DeliverTx (mempool independence, C09)
+	Restart    bool   // the last replica is restarted from its state file after every Commit (C09)
+	NoSave     bool   // C13 twins without the periodic save (only files the app writes by itself)
+	Tags       bool   // remember refused-op classes in the VIEW (small universes only)
+	Edges      bool   // one history per distinct TRANSITION (pre-state in the VIEW), tiny universes only
+	TagRefused bool   // remember EVERY refused transaction (class, sender, eon, flag) in the VIEW (tiny universes only)
+	MaxBeh     int    // cap on replayed behaviours (0 = all)
 }
 
 func cfgText(p Plan, depth int, emit bool, spec, check, view string) string {
@@ -43,7 +45,9 @@ func cfgText(p Plan, depth int, emit bool, spec, check, view string) string {
 	fmt.Fprintf(&b, "CONSTANTS\n  Addrs <- cAddrs\n  KeyOrd <- cKeyOrd\n  Genesis <- cGenesis\n  TallyMode = \"closed\"\n")
 	fmt.Fprintf(&b, "  Cands <- cCands\n  Kinds = {%s}\n  SeenBlocks <- cSeenBlocks\n  CheckKeys <- cCheckKeys\n  Eons <- cEons\n", strings.Join(kinds, ", "))
 	fmt.Fprintf(&b, "  MaxDepth = %d\n  Emit = %v\n", depth, strings.ToUpper(fmt.Sprint(emit)))
-	if p.Tags {
+	if p.TagRefused {
+		fmt.Fprintf(&b, "  TagMode = \"refused\"\n")
+	} else if p.Tags {
 		fmt.Fprintf(&b, "  TagMode = \"set\"\n")
 	} else {
 		fmt.Fprintf(&b, "  TagMode = \"none\"\n")
@@ -70,8 +74,8 @@ type Gen struct {
 	Behaviours [][]int
 	States     int
 	Distinct   int
-	SpecViol   string // non-empty if TLC found a spec-level counterexample
-	SpecCex    []int  // its history
+	SpecViol   string  // non-empty if TLC found a spec-level counterexample
+	SpecCex    []int   // its history
 	Witnesses  [][]int // histories of known findings, always replayed
 	TLCWall    float64
 }
@@ -88,6 +92,9 @@ func Generate(c *core.Ctx, p Plan) (*Gen, error) {
 		spec, check, view = "SpecNI", "INVARIANT C10_NI_ModuloKnown\nINVARIANT EmitInv", "ViewNI"
 	default:
 		spec, check, view = "Spec", "PROPERTY StepProps\nINVARIANT Deterministic\nINVARIANT EmitInv", "PropView"
+		if p.Edges {
+			spec, view = "SpecE", "EdgeView"
+		}
 	}
 	res, err := tlc.Run(tlc.Opts{
 		Module: mod, CfgText: cfgText(p, p.Depth, true, spec, check, view),
